@@ -16,3 +16,99 @@ Theorem C12_result_argument_denotes_first_evaluation : forall base consumer,
   nth (length base - 1) (fst (eval_nodes (base ++ consumer) 0 [] [])) vempty = rvalue (ref base).
 Proof. exact result_argument_denotes_first_evaluation. Qed.
 Print Assumptions C12_result_argument_denotes_first_evaluation.
+
+(* ---------------------------------------------------------------------------
+   The session model (C12/Session.v): a store of task outputs that is evaluated,
+   scanned, discarded and lost in arbitrary histories.  Generic theorems first
+   (any deterministic acyclic task graph), then instantiated with the reference
+   semantics of slice programs (C12/Instance.v).
+   --------------------------------------------------------------------------- *)
+From Coq Require Import Arith.
+Require Import BS.C12.Session BS.C12.SessionProofs BS.C12.Instance.
+
+(* every use observes the first evaluation: in any history of runs, scans,
+   discards and machine losses, every run returns the failure-free rows of its
+   root tasks and every direct scan returns them or an error - never other rows *)
+Theorem C12_history_observes_first_evaluation :
+  forall (V : Type) (compute : nat -> list V -> V) (deps_of : nat -> list nat) (value : nat -> V),
+  (forall t, value t = compute t (map value (deps_of t))) ->
+  (forall t d, In d (deps_of t) -> d < t) ->
+  forall ops, Forall2 (allowed V value) ops (snd (run V compute deps_of [] ops)).
+Proof. exact history_observes_first_evaluation. Qed.
+Print Assumptions C12_history_observes_first_evaluation.
+
+(* a later run recomputes whatever was discarded or lost: it succeeds with the
+   failure-free rows and leaves every root present again *)
+Theorem C12_eval_returns_value :
+  forall (V : Type) (compute : nat -> list V -> V) (deps_of : nat -> list nat) (value : nat -> V),
+  (forall t, value t = compute t (map value (deps_of t))) ->
+  (forall t d, In d (deps_of t) -> d < t) ->
+  forall s roots, Inv V value s ->
+    snd (step V compute deps_of s (OEval roots)) = Rows (map value roots).
+Proof. exact eval_returns_value. Qed.
+Print Assumptions C12_eval_returns_value.
+
+Theorem C12_eval_restores :
+  forall (V : Type) (compute : nat -> list V -> V) (deps_of : nat -> list nat),
+  (forall t d, In d (deps_of t) -> d < t) ->
+  forall s roots r, In r roots -> present V (fst (step V compute deps_of s (OEval roots))) r = true.
+Proof. exact eval_restores. Qed.
+Print Assumptions C12_eval_restores.
+
+(* a direct scan of a Result whose outputs are gone reports an error or the same rows *)
+Theorem C12_scan_value_or_error :
+  forall (V : Type) (compute : nat -> list V -> V) (deps_of : nat -> list nat) (value : nat -> V) s roots,
+  Inv V value s ->
+  snd (step V compute deps_of s (OScan roots)) = Rows (map value roots) \/
+  snd (step V compute deps_of s (OScan roots)) = Failed.
+Proof. exact scan_value_or_error. Qed.
+Print Assumptions C12_scan_value_or_error.
+
+Theorem C12_scan_after_eval :
+  forall (V : Type) (compute : nat -> list V -> V) (deps_of : nat -> list nat) (value : nat -> V),
+  (forall t, value t = compute t (map value (deps_of t))) ->
+  (forall t d, In d (deps_of t) -> d < t) ->
+  forall s roots, Inv V value s ->
+    snd (step V compute deps_of (fst (step V compute deps_of s (OEval roots))) (OScan roots)) = Rows (map value roots).
+Proof. exact scan_after_eval. Qed.
+Print Assumptions C12_scan_after_eval.
+
+(* Discard never changes the value of a later evaluation *)
+Theorem C12_discard_never_changes_later_eval :
+  forall (V : Type) (compute : nat -> list V -> V) (deps_of : nat -> list nat) (value : nat -> V),
+  (forall t, value t = compute t (map value (deps_of t))) ->
+  (forall t d, In d (deps_of t) -> d < t) ->
+  forall ops1 ops2 ts roots,
+  last (snd (run V compute deps_of [] (ops1 ++ ODiscard ts :: ops2 ++ [OEval roots]))) Failed =
+  last (snd (run V compute deps_of [] (ops1 ++ ops2 ++ [OEval roots]))) Failed.
+Proof. exact discard_never_changes_later_eval. Qed.
+Print Assumptions C12_discard_never_changes_later_eval.
+
+(* the instance: tasks = nodes of a well-formed program, outputs = reference values *)
+Theorem C12_value_spec_program : forall p,
+  wf p = true -> forall k, value_of p k = comp p k (map (value_of p) (deps p k)).
+Proof. exact value_spec_program. Qed.
+Print Assumptions C12_value_spec_program.
+
+Theorem C12_program_history_observes_reference : forall p ops,
+  wf p = true ->
+  Forall2 (allowed value (value_of p)) ops (snd (run value (comp p) (deps p) [] ops)).
+Proof. exact program_history_observes_reference. Qed.
+Print Assumptions C12_program_history_observes_reference.
+
+Theorem C12_result_root_is_ref : forall base consumer ops1 ops2,
+  base <> [] -> wf (base ++ consumer) = true ->
+  last (snd (run value (comp (base ++ consumer)) (deps (base ++ consumer)) []
+               (ops1 ++ ODiscard ops2 :: [OEval [length base - 1]]))) Failed
+  = Rows [rvalue (ref base)].
+Proof. exact result_root_is_ref. Qed.
+Print Assumptions C12_result_root_is_ref.
+
+Theorem C12_example_history :
+  wf (ex_base ++ ex_consumer) = true /\
+  snd (run value (comp (ex_base ++ ex_consumer)) (deps (ex_base ++ ex_consumer)) []
+         [OEval [1]; ODiscard [0; 1]; OScan [1]; OEval [2]; OScan [1]])
+  = [Rows [rvalue (ref ex_base)]; Done; Failed;
+     Rows [rvalue (ref (ex_base ++ ex_consumer))]; Rows [rvalue (ref ex_base)]].
+Proof. split; [exact ex_wf|exact ex_history]. Qed.
+Print Assumptions C12_example_history.
